@@ -41,6 +41,9 @@ def c23(tier, seed):
     for kind in range(4):
         jobs.append(J(ITER, "VerifK23StopThenNext", n=nl, kind=kind, fork_all=True, **big))
         jobs.append(J(STO, "VerifK23StopThenNext", n=n, kind=kind, fork_all=True, **big))
+    # shared iterator: every consumer sees the complete sequence however the others interleave, stop or get cancelled
+    jobs.append(J(SHARED, "VerifK09dSharedClones", n=2, ops=4 if q else 5, **big))
+    jobs += shared_cancel(tier)
     return jobs
 
 
@@ -59,14 +62,22 @@ def c09(tier, seed):
         jobs.append(J(SW, "VerifK09aLifeCycleV2", n=2 if q else 3, api=api, **big))
     for n in range(3 if q else 4):
         jobs.append(J(SHARED, "VerifK09dSharedClones", n=n, ops=4 if q else 5, **big))
+    jobs += shared_cancel(tier)
     return jobs
+
+
+def shared_cancel(tier):
+    # one clone's request is cancelled in the middle of a datastore read it triggered; the other clone is healthy
+    q = tier == "quick"
+    big = dict(timeout_ms=120000 if q else 600000, max_paths=20000 if q else 400000)
+    return [J(SHARED, "VerifK09eCancelDuringFetch", n=n, ops=3 if q else 5, **big) for n in ((1, 2) if q else (1, 2, 3))]
 
 
 SPEC = {
     "C23": {
         "jobs": c23,
         "level_text": "bounded symbolic execution of the real SSA of every iterator adapter in pkg/storage/tuple_iterators.go (combined, ordered-combined, filtered, conditions-filtered, tuple-key, static) and internal/iterator (Merge, Concat, Filter, Validate, SkipTo, FromChannel, Stream/Streams, FanInIteratorChannels) over harness stub inputs: 1-3 inputs with symbolic keys (picked from an ordered vocabulary, ordered inputs assumed sorted), an error injected at a symbolic position of every input, symbolic filter verdicts per element (accept/reject/error A/error B) and a symbolic mix of Head and Next calls; the drained sequence is compared with a short reference (concatenation; strictly ascending sequence with the union key set = sorted de-duplicated merge, prefix of it when an input fails; accepted elements in order with 'last filter error only if nothing was valid'); Head announces what Next returns and does not consume, ErrIteratorDone is sticky, Stop is idempotent, stops every input and is followed by ErrIteratorDone",
-        "level_note": "bounds: total items over all inputs <= 3 (quick) / 4-5 (thorough), vocabulary 2-4 keys, <= 2/3 channel messages, 2/3 fan-in channels; each harness run enumerates the structure (lengths, error positions where forked) and keeps keys/verdicts/Head-Next mix symbolic; most runs use the engine's fork-at-every-branch mode (every path concrete in control flow, data symbolic); FanIn is checked under the engine's deterministic cooperative schedule only (one interleaving per structure) and natively on replay; shared-iterator clones are checked by C09 (K09d); trusted: go/ssa, engine instruction semantics, sync/channel/goroutine model, z3",
+        "level_note": "bounds: total items over all inputs <= 3 (quick) / 4-5 (thorough), vocabulary 2-4 keys, <= 2/3 channel messages, 2/3 fan-in channels; each harness run enumerates the structure (lengths, error positions where forked) and keeps keys/verdicts/Head-Next mix symbolic; most runs use the engine's fork-at-every-branch mode (every path concrete in control flow, data symbolic); FanIn is checked under the engine's deterministic cooperative schedule only (one interleaving per structure) and natively on replay; shared-iterator clones: K09d (every sequence of whole Next/Head/Stop calls of two clones, inner length 2) and K09e (one clone's request context cancelled inside the datastore read it triggered, at a solver-chosen read; inner length 1-2 (1-3), 3 (5) calls); trusted: go/ssa, engine instruction semantics, sync/channel/goroutine model, z3",
         "assumptions": [
             "input iterators honour the Iterator contract: errors are persistent and do not consume, ErrIteratorDone after the end and after Stop, Head does not consume",
             "ordered inputs are sorted ascending by the mapper/compare function (Merge: no duplicates inside one input for the strict-ascending check; duplicates inside an input are covered by the sortedness-only harness)",
@@ -82,7 +93,7 @@ SPEC = {
     },
     "C09": {
         "jobs": c09,
-        "level_text": "bounded symbolic execution of both iterator caches in pkg/storage/storagewrappers (CachedDatastore/cachedIterator/cachedTupleIterator and CachedTupleReader/CachingIterator/LockFreeCachedIterator) with a harness cache and a harness datastore iterator, and of sharediterator.sharedIterator: (K09b) addToBuffer∘buildTuple and flush∘reconstruct are the identity on every valid tuple for every combination of the four elision parameters consistent with the query; (K09c) findInCache/isInvalidAt/tryGetFromCache hit exactly when the entry is present, of the right type and not older than the store marker nor any entity marker, and delete invalidated entries; (K09a) full life cycle through the public Read/ReadUsersetTuples/ReadStartingWithUser: a consumer doing a symbolic number of Head/Next calls with the request context cancelled at a symbolic step, an error injected at a symbolic position, Stop (twice), the real background goroutine + singleflight drain, optional datastore-context cancellation, small/large maxResultSize: if the cache was written the entry is the COMPLETE datastore sequence stamped with the query start, nothing is stored after a non-cancellation error or above maxResultSize, and a second identical query served from the cache yields exactly the datastore's tuples; (K09d) two clones plus the storage handle of a shared iterator driven by every sequence of whole Next/Head/Stop calls up to the bound: each live clone sees the complete inner sequence then the inner terminal error, the inner iterator is stopped exactly once when the last handle stops, and every inner item is fetched once",
+        "level_text": "bounded symbolic execution of both iterator caches in pkg/storage/storagewrappers (CachedDatastore/cachedIterator/cachedTupleIterator and CachedTupleReader/CachingIterator/LockFreeCachedIterator) with a harness cache and a harness datastore iterator, and of sharediterator.sharedIterator: (K09b) addToBuffer∘buildTuple and flush∘reconstruct are the identity on every valid tuple for every combination of the four elision parameters consistent with the query; (K09c) findInCache/isInvalidAt/tryGetFromCache hit exactly when the entry is present, of the right type and not older than the store marker nor any entity marker, and delete invalidated entries; (K09a) full life cycle through the public Read/ReadUsersetTuples/ReadStartingWithUser: a consumer doing a symbolic number of Head/Next calls with the request context cancelled at a symbolic step, an error injected at a symbolic position, Stop (twice), the real background goroutine + singleflight drain, optional datastore-context cancellation, small/large maxResultSize: if the cache was written the entry is the COMPLETE datastore sequence stamped with the query start, nothing is stored after a non-cancellation error or above maxResultSize, and a second identical query served from the cache yields exactly the datastore's tuples; (K09d) two clones plus the storage handle of a shared iterator driven by every sequence of whole Next/Head/Stop calls up to the bound: each live clone sees the complete inner sequence then the inner terminal error, the inner iterator is stopped exactly once when the last handle stops, and every inner item is fetched once; (K09e) one clone's request context is cancelled inside the datastore read it triggered (solver-chosen read position): the clone with the live context still sees the complete sequence and ErrIteratorDone",
         "level_note": "bounds: tuple parts <= 1 arbitrary byte / <= 2 ASCII bytes (quick), 2 / 3 (thorough); invalidation instants in 0..4 (0..6), <= 2 entity markers; life cycle: <= 2 (quick) / 3 (thorough) tuples from a small vocabulary consistent with the query, consumer calls <= n+1, one background goroutine per iterator run to completion by the engine's cooperative scheduler (after Stop; sequentially consistent at the granularity of blocking operations); shared clones: inner length 0..2 (0..3), every call sequence of length 4 (5) over 7 call kinds, error position enumerated; cache TTL expiry not modelled (entries never expire); trusted: go/ssa, engine instruction semantics, sync/goroutine/context/singleflight-from-source model, abstract clock, z3",
         "assumptions": [
             "the datastore iterator reports the context's error when called with a cancelled context and does not consume on error",
